@@ -112,7 +112,7 @@ fn main() {
         }
     }
     let types = [RType::Counter, RType::Gauge, RType::Histogram, RType::Summary];
-    rep.rule = format!("families from a bounded generator: for each of counter/gauge/histogram/summary every value of the float pool {:?} in every float slot (sample value, sum, bucket bound, quantile) x 12 bucket/quantile shapes (0-2 buckets, explicit +Inf bound, huge counts), label shapes of 0-2 pairs (thorough: 3) with every assignment from the string pool {:?} also used as help, every timestamp of {:?}; all ordered pairs and triples of a 6-family basis as streams; 20 streams placing a very large family (a 2 KiB token, a 64+ KiB family of 900 samples, a 400-bucket histogram) at every position among small ones; a float sweep (every short decimal k/10^d, k<=2000, d<=4, thorough k<=20000, d<=6, both signs, with its neighbours 1 and 2 ulp away); a size sweep (help text and label value of 0..8300 bytes, thorough also around 16K/32K/64K, ending in an escape, a multi-byte character and a quote); everything gather() returns over the registry enumeration (subsets <=2, all orders, all configs); call histories (failed encode then encode, repeated encode, mutate then re-encode). Each stream: 3 entry points byte-identical, UTF-8, append-only, independent 0.0.4 parser reads back exactly the same families. distinct = distinct encoded texts", floats().iter().map(|f| f64s(*f)).collect::<Vec<_>>(), STRS, TIMESTAMPS);
+    rep.rule = format!("families from a bounded generator: for each of counter/gauge/histogram/summary every value of the float pool {:?} in every float slot (sample value, sum, bucket bound, quantile) x 12 bucket/quantile shapes (0-2 buckets, explicit +Inf bound, huge counts), label shapes of 0-2 pairs (thorough: 3) with every assignment from the string pool {:?} also used as help, every timestamp of {:?}; all ordered pairs and triples of a 6-family basis as streams; 20 streams placing a very large family (a 2 KiB token, a 64+ KiB family of 900 samples, a 400-bucket histogram) at every position among small ones; a float sweep (every short decimal k/10^d, k<=2000, d<=4, thorough k<=20000, d<=6, both signs, with its neighbours 1 and 2 ulp away; every binary exponent 0..2046 x 11 mantissa patterns and every power of ten 1e-323..1e308 with its neighbours, both signs); a size sweep (help text and label value of 0..8300 bytes, thorough also around 16K/32K/64K, ending in an escape, a multi-byte character and a quote); everything gather() returns over the registry enumeration (subsets <=2, all orders, all configs); call histories (failed encode then encode, repeated encode, mutate then re-encode). Each stream: 3 entry points byte-identical, UTF-8, append-only, independent 0.0.4 parser reads back exactly the same families. distinct = distinct encoded texts", floats().iter().map(|f| f64s(*f)).collect::<Vec<_>>(), STRS, TIMESTAMPS);
     rep.bounds = json!({"strings": STRS.len(), "floats": floats().len(), "labels": if thorough {3} else {2}});
 
     let mut run = |rep: &mut Report, fams: &[RFamily], group: &str| {
@@ -182,6 +182,26 @@ fn main() {
                 let v = k as f64 / 10f64.powi(d as i32);
                 for delta in [-2i64, -1, 0, 1, 2] {
                     let w = f64::from_bits((v.to_bits() as i64 + delta) as u64);
+                    vals.push(w);
+                    vals.push(-w);
+                }
+            }
+        }
+        // magnitude sweep: every binary exponent (subnormals included) with a set of mantissa patterns, and every power of
+        // ten 1e-323..1e308 with its neighbours — a rendering shortcut keyed on the magnitude (exponent notation with too
+        // few digits, a fixed-width buffer) shows here
+        for e in 0u64..=2046 {
+            for m in [0u64, 1, 2, 0xF_FFFF_FFFF_FFFF, 0xF_FFFF_FFFF_FFFE, 0x8_0000_0000_0000, 0x7_FFFF_FFFF_FFFF, 0x5_5555_5555_5555, 0xA_AAAA_AAAA_AAAA, 0x3_C0CA_428C_59FB, 0x9_21FB_5444_2D18] {
+                let w = f64::from_bits(e << 52 | m);
+                vals.push(w);
+                vals.push(-w);
+            }
+        }
+        for p10 in -323i32..=308 {
+            let v: f64 = format!("1e{}", p10).parse().unwrap();
+            for delta in [-2i64, -1, 0, 1, 2] {
+                let w = f64::from_bits((v.to_bits() as i64 + delta).max(1) as u64);
+                if w.is_finite() {
                     vals.push(w);
                     vals.push(-w);
                 }
